@@ -106,7 +106,7 @@ Lemma encode_msg_flat fl kv k :
     end
   else Err ERej.
 Proof.
-  intros Hk. unfold encode_msg. rewrite Hk. cbn [enc_composite].
+  intros Hk. unfold encode_msg. rewrite Hk. cbn [enc_composite]. rewrite own_keys_flat. cbn [drop_keys].
   cbn [estate0 e_bit Z.eqb guard bind].
   destruct (forallb (fun k0 => existsb (fun p => bytes_eqb (fst k0) (pname p)) (map mkp fl)) kv); cbn [guard bind]; [|reflexivity].
   unfold enc_go, s_init. rewrite enc_bind_shape.
